@@ -378,6 +378,12 @@ def general(rng, *, n=None, con=None, bound_patterns=None, x0_where=None,
         spec["faults"] = fault_plan(rng, spec)
     if rng.random() < 0.08:
         spec["scribble"] = True     # user functions overwrite their argument
+    if rng.random() < 0.06:
+        # user functions returning integers, float32, lists
+        spec["rtype"] = {
+            "obj": [None, "int", "pyint", "float32"][int(rng.integers(4))],
+            "con": [None, "int", "float32", "list", "int"][
+                int(rng.integers(5))]}
     spec["con_kind"] = con
     return spec
 
